@@ -45,6 +45,7 @@ type VerifC08Req struct {
 	NSID    bool   `json:"nsid"`
 	PadLen  int    `json:"padlen"`  // payload bytes of the client's padding option
 	NSIDLen int    `json:"nsidlen"` // payload bytes of the client's NSID option (normally 0)
+	Ver     int    `json:"ver"`     // EDNS version of the query's OPT record (normally 0)
 }
 
 // VerifC08BuildReq builds the query.
@@ -57,6 +58,9 @@ func VerifC08BuildReq(name string, id uint16, r VerifC08Req) (m *dns.Msg) {
 	}
 	o := &dns.OPT{Hdr: dns.RR_Header{Name: ".", Rrtype: dns.TypeOPT}}
 	o.SetUDPSize(r.Size)
+	if r.Ver != 0 {
+		o.SetVersion(uint8(r.Ver))
+	}
 	if r.Do {
 		o.SetDo()
 	}
@@ -432,6 +436,7 @@ func (g *VerifC08Gen) Next(proto string, sizes []uint16, cfg int) (c VerifC08Cas
 		c.Req.Opt = true
 		c.Req.Size = sizes[r.Intn(len(sizes))]
 		c.Req.Do = r.Intn(2) == 0
+		c.Req.Ver = []int{0, 0, 0, 0, 1, 255}[r.Intn(6)] // the reply's OPT is version 0 whatever the query says
 		c.Req.Pad = r.Intn(3) == 0 || (stdenc && r.Intn(2) == 0)
 		c.Req.KA = r.Intn(3) == 0 || (katr && r.Intn(2) == 0)
 		c.Req.NSID = r.Intn(3) == 0
